@@ -21,6 +21,7 @@ def f32s(bits):
 
 # memory layout given to every array handed to a constructor by build(): None = a fresh C-contiguous little-endian
 # array; otherwise an array with the same shape, dtype kind and VALUES but another layout in memory
+STRAY_LINKS = 0       # > 0: Data3D blocks of a link-less format are given that many links all the same
 LAYOUT = None
 LAYOUTS = ("F", "strided", "reversed", "bigendian", "readonly", "offset")
 
@@ -298,7 +299,8 @@ def frames_array(frames, ncomp):
     return a
 
 
-def build(kind, fmt, v):
+def build(kind, fmt, v, **kw):
+    """kw: keyword arguments for the constructors that hand them on to Block.__init__ (the block's dates)"""
     if kind == "D3":
         from basictdf.tdfData3D import Data3D, Data3dBlockFormat, Flags, LinkType, MarkerTrack
         d = Data3D(frequency=v[1], nFrames=v[0], volume=f32a(v[4]), rotationMatrix=f32a(v[5], (3, 3)),
@@ -306,6 +308,10 @@ def build(kind, fmt, v):
                    format=Data3dBlockFormat(fmt))
         if fmt == 1:
             d.links = lay(np.array([tuple(x) for x in v[8][2]], dtype=LinkType.btype))
+        elif STRAY_LINKS:
+            # a block of a link-less format that nevertheless HAS links (set by the caller, or left over from the format the
+            # block was read in): the format does not store them, so they are no part of the value
+            d.links = np.array([(0, 1), (1, 0), (0, 0)][:STRAY_LINKS], dtype=LinkType.btype)
         for label, frames in v[9]:
             d.add_track(MarkerTrack(txt(label), lay(frames_array(frames, 3))))
         return d
@@ -343,7 +349,7 @@ def build(kind, fmt, v):
         from basictdf.tdfForcePlatformsCalibration import (ForcePlatformCalibrationBlockFormat,
                                                            ForcePlatformInfo,
                                                            ForcePlatformsCalibrationDataBlock)
-        b = ForcePlatformsCalibrationDataBlock(format=ForcePlatformCalibrationBlockFormat(fmt))
+        b = ForcePlatformsCalibrationDataBlock(format=ForcePlatformCalibrationBlockFormat(fmt), **kw)
         for ch, (label, size, pos, _pad) in zip(v[2], v[3]):
             b.add_platform(ForcePlatformInfo(txt(label), f32a(size), f32a(pos, (4, 3))), channel=ch)
         return b
@@ -376,14 +382,14 @@ def build(kind, fmt, v):
                 cams.append(BTSCameraData(f64a(c[0], (3, 3)), f64a(c[1]), f64a(c[2]), f64a(c[3]), f64a(c[4]),
                                           f64a(c[5]), vp))
         return CalibrationDataBlock(DistorsionModel(v[1]), f32a(v[2]), f32a(v[3], (3, 3)), f32a(v[4]),
-                                    lay(np.array(v[5], dtype="<i2")), cams, format=CalibrationDataBlockFormat(fmt))
+                                    lay(np.array(v[5], dtype="<i2")), cams, format=CalibrationDataBlockFormat(fmt), **kw)
     if kind == "OS":
         from basictdf.tdfOpticalSystem import OpticalChannelData, OpticalSetupBlock, OpticalSetupBlockFormat
         from basictdf.tdfTypes import CameraViewPort
         chs = [OpticalChannelData(c[0], txt(c[2]), txt(c[3]), txt(c[4]),
                                   CameraViewPort(lay(np.array(c[5][0], dtype="<i4")), lay(np.array(c[5][1], dtype="<i4"))))
                for c in v[2]]
-        return OpticalSetupBlock(format=OpticalSetupBlockFormat(fmt), channels=chs)
+        return OpticalSetupBlock(format=OpticalSetupBlockFormat(fmt), channels=chs, **kw)
     if kind == "EV":
         from basictdf.tdfEvents import Event, EventsDataType, TemporalEventsData, TemporalEventsDataFormat
         t = TemporalEventsData(format=TemporalEventsDataFormat(fmt), start_time=f32s(v[1]))
